@@ -1,9 +1,61 @@
 package main
 
+import (
+	"strings"
+)
+
+// field extracts "key=value" from a canonical output line ("w=.. r=.. txn=.. pend=..").
+func field(s, key string) string {
+	for _, p := range strings.Split(s, " ") {
+		if strings.HasPrefix(p, key+"=") {
+			return p[len(key)+1:]
+		}
+	}
+	return ""
+}
+
+// specLineOf turns "cex kind unit e w txn pend arr ending Op…" into "sreq kind unit e w txn Op…".
+func specLineOf(cex string) string {
+	p := strings.Split(cex, " ")
+	return "sreq " + strings.Join(p[1:6], " ") + " " + strings.Join(p[9:], " ")
+}
+
+// checkC01Property: the bytes written must equal the specified frame, or nothing is written and
+// the call fails with unexpected-parameters (Spec.request evaluated by mbmodel).
+func checkC01Property(cases []cexCase, res *Result) error {
+	lines := make([]string, len(cases))
+	for i, c := range cases {
+		lines[i] = specLineOf(c.line)
+	}
+	outs, err := runModel(lines)
+	if err != nil {
+		return err
+	}
+	for i, c := range cases {
+		w, r := field(c.impl, "w"), field(c.impl, "r")
+		spec := outs[i]
+		ok := false
+		switch {
+		case strings.HasPrefix(spec, "ok:"):
+			ok = w == spec[3:]
+		case spec == "err:ErrUnexpectedParameters":
+			ok = w == "none" && r == "err:ErrUnexpectedParameters"
+		}
+		if !ok {
+			res.Add(Finding{Kind: "property", Check: "sreq", Line: c.line, Impl: "w=" + shorten(w, 600) + " r=" + shorten(r, 80),
+				Expect: shorten(spec, 600), Note: "request bytes / local rejection differ from Spec.request"})
+		}
+	}
+	return nil
+}
+
 func init() {
 	checks["C01"] = func(tier string, seed uint64, res *Result) error {
-		res.Rule = "generated public client calls (boundary-heavy addresses/quantities/slice lengths incl. >= 65536, all 30 methods, 4 encodings, random unit ids) on real clients over scripted connections (tcp, tcp+tls, rtuovertcp, rtu); the bytes written and the local rejection are compared with the Lean model; distinct = (scheme, method, reply class, outcome class)"
+		res.Rule = "generated public client calls (boundary-heavy addresses/quantities/slice lengths incl. >= 65536, all 30 methods, 4 encodings, random unit ids) on real clients over scripted connections (tcp, tcp+tls, rtuovertcp, rtu); bytes written and local rejection compared with the Lean model (correspondence) and with Spec.request (property oracle); distinct = (scheme, method, reply class, outcome class)"
 		cases := runClientCases(seed, scale(tier, 400, 6000), 16, true, res)
+		if err := checkC01Property(cases, res); err != nil {
+			return err
+		}
 		return compareWithModel("cex", cases, res)
 	}
 	checks["C02"] = func(tier string, seed uint64, res *Result) error {
